@@ -717,8 +717,23 @@ def mon_c13(ctx, rec):
             runoff = (rec.proc_ret.get("rainfall_partition") or {}).get("Runoff", 0.0) or 0.0
             depl = dr + cap_i["t_pot"] + cap_i["e_pot"] - rec.wx[2] + runoff - abv
             smt = [float(x) for x in ikw.get("SMT", [100] * 4)]
-            g0 = 1 if dap == 1 else int(cap_i["growth_stage"] or 1)
-            g1 = int(rec.flags1["growth_stage"] or g0)
+            # the growth stage, recomputed from the property's wording (stages delimited by 10 % canopy cover, maximum canopy
+            # and senescence on the crop's development clock, which stops while development is delayed) - not read from the
+            # model's own stage variable.  The decision of day d is taken before the day's development is known, so the
+            # stage at the end of day d-1 and the stage at the end of day d are both admissible.
+            def _stage(tadj):
+                if tadj <= float(crop.Canopy10Pct):
+                    return 1
+                if tadj <= float(crop.MaxCanopy):
+                    return 2
+                if tadj <= float(crop.Senescence):
+                    return 3
+                return 4
+            dcd, dgd = rec.delayed1
+            t_today = (dap - dcd) if int(crop.CalendarType) == 1 else (gr(rec, "gdd_cum") - dgd)
+            g1 = _stage(t_today)
+            g0 = 1 if (dap == 1 or st.get("t_prev") is None or st.get("t_prev_season") != rec.season) else _stage(st["t_prev"])
+            st["t_prev"], st["t_prev_season"] = t_today, rec.season
             effadj = ((100 - ctx.app_eff) + 100) / 100.0
             if taw <= 0:
                 st["undecidable"] += 1
